@@ -1,1 +1,2 @@
 import NjectProps.S7
+import NjectProps.C18
